@@ -89,8 +89,9 @@ Proof. exact c04_tables_released_lemma. Qed.
 
 (* ... and `owns` is what the socket API maintains: it holds for the empty
    host and is kept by binding a UDP socket / a listener on a free port, by a
-   SYN being queued, by connect/accept registering a stream and handing out its
-   two halves, by a RST from the peer removing the entry, by joining a multicast
+   SYN being queued, by connect registering a stream under a ConnectGuard, by
+   accept (or a completed connect) registering a stream and handing out its two
+   halves, by a RST from the peer removing the entry, by joining a multicast
    group on a live socket, and by every destructor. *)
 Theorem c04_owns_api :
   (forall h, owns (empty_tables h) []) /\
@@ -99,7 +100,11 @@ Theorem c04_owns_api :
   (forall t objs port, owns t objs -> cnt (fun b => fst b =? port) (tcp t) = 0%nat ->
      owns (set_tcp t (tcp t ++ [(port, [])])) (SListener port :: objs)) /\
   (forall t objs port s, owns t objs -> owns (set_tcp t (push_syn port s (tcp t))) objs) /\
-  (forall t objs p, owns t objs -> lookup_stream p (streams t) = None -> cnt (is_half p) objs = 0%nat ->
+  (forall t objs p, owns t objs -> lookup_stream p (streams t) = None ->
+     cnt (is_half p) objs = 0%nat -> cnt (is_guard p) objs = 0%nat ->
+     owns (set_streams t ((p, 2%nat) :: streams t)) (SConnGuard p :: objs)) /\
+  (forall t objs p, owns t objs -> lookup_stream p (streams t) = None ->
+     cnt (is_half p) objs = 0%nat -> cnt (is_guard p) objs = 0%nat ->
      owns (set_streams t ((p, 2%nat) :: streams t)) (SRead p false false :: SWrite p false :: objs)) /\
   (forall t objs p, owns t objs -> owns (set_streams t (remove_stream p (streams t))) objs) /\
   (forall t objs g port, owns t objs -> (1 <= cnt (is_udp port) objs)%nat ->
@@ -107,7 +112,7 @@ Theorem c04_owns_api :
   (forall t o rest, owns t (o :: rest) -> owns (fst (drop_sock t o)) rest).
 Proof.
   exact (conj owns_empty (conj owns_udp_bind (conj owns_tcp_bind (conj owns_syn_queued
-          (conj owns_new_stream (conj owns_rst_received (conj owns_join owns_drop))))))).
+          (conj owns_connect_start (conj owns_new_stream (conj owns_rst_received (conj owns_join owns_drop)))))))).
 Qed.
 
 (* ---- non-vacuity ------------------------------------------------------------------- *)
@@ -130,16 +135,18 @@ Proof. cbv zeta. split; vm_compute; reflexivity. Qed.
 
 (* tables: a host with a UDP socket in a multicast group, a listener with a
    queued SYN, one established stream with both halves (unread data on the read
-   half) and one whose read half is already gone: ownership holds, and two
+   half), one whose read half is already gone and one connect still in its
+   handshake: ownership holds, and two
    different destructor orders both leave nothing, tell both peers, and drop
    the queued SYN. *)
 Definition p1 : pair := {| lport := 9000; rhost := 2; rport := 49152 |}.
 Definition p2 : pair := {| lport := 9000; rhost := 3; rport := 49153 |}.
+Definition p3 : pair := {| lport := 49200; rhost := 4; rport := 9001 |}.
 Definition t_nv : tables :=
   {| self := 1; udp := [9100]; tcp := [(9000, [{| syn_host := 4; syn_port := 49154; syn_ack := 77 |}])];
-     streams := [(p1, 2%nat); (p2, 1%nat)]; mcast := [(5, 1, 9100); (5, 2, 9100)] |}.
+     streams := [(p1, 2%nat); (p2, 1%nat); (p3, 2%nat)]; mcast := [(5, 1, 9100); (5, 2, 9100)] |}.
 Definition objs_nv : list sock :=
-  [SUdp 9100; SListener 9000; SRead p1 true false; SWrite p1 false; SWrite p2 false].
+  [SUdp 9100; SListener 9000; SRead p1 true false; SWrite p1 false; SWrite p2 false; SConnGuard p3].
 Lemma owns_nv : owns t_nv objs_nv.
 Proof.
   constructor.
@@ -147,13 +154,19 @@ Proof.
     rewrite (N.eqb_sym q 9100). destruct (9100 =? q); reflexivity.
   - intro q. unfold cnt; cbn [objs_nv t_nv tcp filter is_listener fst]. destruct (9000 =? q); reflexivity.
   - intro q. unfold cnt; cbn [objs_nv t_nv tcp filter fst]. destruct (9000 =? q); cbn; lia.
-  - intros p n H. cbn in H. unfold cnt; cbn [objs_nv filter is_half].
-    destruct (pair_eqb p1 p) eqn:E1; [|destruct (pair_eqb p2 p) eqn:E2; [|discriminate]].
+  - intros p n H. cbn in H. unfold cnt; cbn [objs_nv filter is_half is_guard].
+    destruct (pair_eqb p1 p) eqn:E1; [|destruct (pair_eqb p2 p) eqn:E2;
+      [|destruct (pair_eqb p3 p) eqn:E3; [|discriminate]]].
     + inversion H; subst n. apply pair_eqb_eq in E1. subst p. cbn. lia.
+    + inversion H; subst n. apply pair_eqb_eq in E2. subst p. cbn. lia.
     + inversion H; subst n. cbn. lia.
+  - intros q Hq. unfold cnt in *; cbn [objs_nv filter is_half is_guard] in *.
+    destruct (pair_eqb p3 q) eqn:E3; [|cbn in Hq; lia].
+    apply pair_eqb_eq in E3. subst q. reflexivity.
   - intro q. unfold cnt; cbn [t_nv streams filter fst].
-    destruct (pair_eqb p1 q) eqn:E1, (pair_eqb p2 q) eqn:E2; cbn; try lia.
-    apply pair_eqb_eq in E1, E2. subst. discriminate.
+    destruct (pair_eqb p1 q) eqn:E1, (pair_eqb p2 q) eqn:E2, (pair_eqb p3 q) eqn:E3; cbn; try lia;
+      apply pair_eqb_eq in E1 || apply pair_eqb_eq in E2; try apply pair_eqb_eq in E2;
+      try apply pair_eqb_eq in E3; subst; discriminate.
   - intros g q Hin. cbn in Hin. destruct Hin as [Hin|[Hin|[]]]; inversion Hin; subst.
     vm_compute. lia.
 Qed.
